@@ -441,6 +441,8 @@ int SimulateZ80::dump_ram(int start, int end)
     end = sizeof(io_mem) - 1;   // limit IO space
   }
 
+  if (start < 0) { start = 0; }
+
   for (n = start; n <= end; ++n)
   {
     if ((count % 16) == 0)
